@@ -62,7 +62,7 @@ func (C19) Meta() core.Meta {
 		Real:        []string{"agessh.EncryptedSSHIdentity", "agessh Ed25519/RSA identities", "x/crypto/ssh key parsing", "filippo.io/age Decrypt"},
 		Stub:        []string{"passphrase callback", "files (reference writer)", "source"},
 		FaultKinds:  []string{"fault.passphrase_wrong", "fault.passphrase_error", "fault.mismatched_private_key"},
-		Probes:      []string{"probe.prompted", "probe.no_prompt_no_match", "probe.validated_then_reused", "probe.after_mismatch_file_to_B", "probe.after_mismatch_same_file", "probe.after_wrong_then_right", "probe.match_not_first_stanza", "probe.same_type_other_tag", "probe.crafted_other_type_same_tag", "probe.crafted_same_tag_bad_body", "probe.crafted_other_tag_bad_args", "probe.key_file_of_other_type", "probe.twin_identity_validated_first", "probe.colliding_tags", "probe.passphrase_buffer_shared"},
+		Probes:      []string{"probe.prompted", "probe.no_prompt_no_match", "probe.validated_then_reused", "probe.after_mismatch_file_to_B", "probe.after_mismatch_same_file", "probe.after_wrong_then_right", "probe.match_not_first_stanza", "probe.same_type_other_tag", "probe.crafted_other_type_same_tag", "probe.crafted_same_tag_bad_body", "probe.crafted_other_tag_bad_args", "probe.key_file_of_other_type", "probe.twin_identity_validated_first", "probe.colliding_tags", "probe.passphrase_buffer_shared", "probe.compared_with_fresh_identity"},
 	}
 }
 
@@ -534,6 +534,35 @@ func (e C19) Execute(plan interface{}, c *core.Ctx) *core.Verdict {
 		before := prompts
 		res := lib.Decrypt(seam.NewSource(img, seam.Delivery{Mode: "whole"}, nil, nil).Reader(), false, []age.Identity{id}, lib.ReadSched{Mode: "all"}, nil)
 		got := prompts - before
+		// as long as no key has been validated, what came before leaves no trace: a NEW identity value over the same key
+		// file, asked the same way, must end in the very same error (or the same success), word for word
+		if ci > 0 && !(validated && wantPrompts == 0) {
+			fp := 0
+			fresh, ferr := agessh.NewEncryptedSSHIdentity(ks.pubA, pem, func() ([]byte, error) {
+				fp++
+				switch cl.Answer {
+				case "right":
+					return []byte(pass), nil
+				case "wrong":
+					return []byte("not the passphrase"), nil
+				case "empty":
+					return []byte{}, nil
+				case "odd":
+					return []byte(heldRSA), nil
+				case "error-with-value":
+					return []byte(pass), errors.New("sim: prompt interrupted")
+				}
+				return nil, errors.New("sim: user aborted the prompt")
+			})
+			if ferr != nil {
+				return core.Fail("harness", "fresh identity: %v", ferr)
+			}
+			fres := lib.Decrypt(seam.NewSource(img, seam.Delivery{Mode: "whole"}, nil, nil).Reader(), false, []age.Identity{fresh}, lib.ReadSched{Mode: "all"}, nil)
+			c.Stats.Inc("probe.compared_with_fresh_identity")
+			if fres.ErrText() != res.ErrText() || fp != got {
+				return core.Fail("C19.trace_of_earlier_calls", "call %d of history (identity %s declared A, key file holds %s, stanzas %v, answer %s, no key validated so far): %q after %d prompt(s); a new identity value over the same key file, asked the same way, gives %q after %d prompt(s)", ci, p.Type, p.Holds, cl.Stanzas, cl.Answer, res.ErrText(), got, fres.ErrText(), fp)
+			}
+		}
 		var class string
 		var nm *age.NoIdentityMatchError
 		switch {
